@@ -23,6 +23,6 @@ SimpleValue = (Number | QuotedString | JsonObject | JsonArray | TRUE | FALSE | N
 JsonValue = (WS >> SimpleValue << WS)
 Key = (QuotedString << WS << Colon)
 KVPairs = (((WS >> Key) + JsonValue).sep_by(Comma))
-JsonArray <= (LeftBracket >> JsonValue.sep_by(Comma) << RightBracket)
-JsonObject <= (LeftCurly >> KVPairs.map(lambda res: dict((k, v) for (k, v) in res)) << RightCurly)
+JsonArray <= (LeftBracket >> WS >> JsonValue.sep_by(Comma) << RightBracket)
+JsonObject <= (LeftCurly >> WS >> KVPairs.map(lambda res: dict((k, v) for (k, v) in res)) << RightCurly)
 Top = JsonValue + EOF
